@@ -137,8 +137,8 @@ func genHeap(r *hx.Rand) *hx.Case {
 
 func genPPQ(r *hx.Rand) *hx.Case {
 	np := r.Intn(6)
-	if r.Chance(1, 10) {
-		np = r.Range(6, 12)
+	if r.Chance(1, 4) {
+		np = r.Range(6, 16)
 	}
 	var ops []op
 	// initial contents as leading "init" ops (partition M gets priority N before construction)
@@ -233,7 +233,7 @@ func genSet(r *hx.Rand) *hx.Case {
 		case x == 7:
 			ops = append(ops, op{K: "diff", L: genKeys(r, 4)})
 		case x == 8:
-			ops = append(ops, op{K: "size"})
+			ops = append(ops, op{K: hx.Pick(r, []string{"size", "size", "nil"})})
 		default:
 			ops = append(ops, op{K: "slice"})
 		}
@@ -291,7 +291,11 @@ func genMerge(r *hx.Rand, st string) *hx.Case {
 		}
 	}
 	hx.Shuffle(r, ops)
-	return mk(st, "rand", map[string]any{"iters": k}, ops)
+	lim := 0
+	if r.Chance(1, 4) {
+		lim = r.Range(1, 6) // the consumer stops after lim items
+	}
+	return mk(st, "rand", map[string]any{"iters": k, "limit": lim}, ops)
 }
 
 func searchCases(tier string, r *hx.Rand) []*hx.Case {
@@ -670,15 +674,12 @@ func (eng) execute(mode string, c *hx.Case) (*hx.Result, error) {
 				}
 			case "get":
 				n, ok := t.Get(o.A)
-				var v []byte
 				if ok {
 					reads++
-					v = n.Value
-					if !bytes.Equal(n.Key, o.A) {
-						return nil, fmt.Errorf("Get returned a node with another key")
-					}
+					add(fmt.Sprintf("ZGet %s (Some (%s, %s))", hx.CoqBytes(o.A), hx.CoqBytes(n.Key), hx.CoqBytes(n.Value)), [2][]byte{n.Key, n.Value})
+				} else {
+					add(fmt.Sprintf("ZGet %s (@None (bytes * bytes))", hx.CoqBytes(o.A)), nil)
 				}
-				add(fmt.Sprintf("ZGet %s %s", hx.CoqBytes(o.A), optBytes(v, ok)), v)
 			case "ascend", "ascendn":
 				var items []string
 				var ob [][2][]byte
@@ -819,6 +820,13 @@ func (eng) execute(mode string, c *hx.Case) (*hx.Result, error) {
 				add(fmt.Sprintf("SHas %s %s", hx.CoqBytes(o.A), hx.CoqBool(b)), b)
 			case "size":
 				add(fmt.Sprintf("SSize %d", s.Size()), s.Size())
+			case "nil":
+				var ns *ds.Set[string]
+				cnt := 0
+				for range ns.All() {
+					cnt++
+				}
+				add(fmt.Sprintf("SNil %d %d", ns.Size(), cnt), []int{ns.Size(), cnt})
 			case "slice":
 				var viaAll [][]byte
 				for v := range s.All() {
@@ -882,6 +890,7 @@ func (eng) execute(mode string, c *hx.Case) (*hx.Result, error) {
 
 	case "merge":
 		k := pint(c.Params, "iters")
+		lim := pint(c.Params, "limit")
 		lists := make([][]mitem, k)
 		for _, o := range ops {
 			if int(o.M) < k {
@@ -915,14 +924,21 @@ func (eng) execute(mode string, c *hx.Case) (*hx.Result, error) {
 		}) {
 			out = append(out, mitemTerm(x))
 			ob = append(ob, x)
+			if lim > 0 && len(out) >= lim {
+				break
+			}
 		}
 		if shared {
 			tags = append(tags, "merge:key-in-several-iterators")
 		}
-		return &hx.Result{Term: "CMerge " + hx.CoqList(inTerms, "list (bytes * N * N)") + " " + hx.CoqList(out, "bytes * N * N"), Nontrivial: len(ops) >= 4 && k >= 2, Tags: append(tags, lenTag()), Observed: ob}, nil
+		if lim > 0 {
+			tags = append(tags, "merge:consumer-stops-early")
+		}
+		return &hx.Result{Term: fmt.Sprintf("CMerge %d ", lim) + hx.CoqList(inTerms, "list (bytes * N * N)") + " " + hx.CoqList(out, "bytes * N * N"), Nontrivial: len(ops) >= 4 && k >= 2, Tags: append(tags, lenTag()), Observed: ob}, nil
 
 	case "msorted":
 		k := pint(c.Params, "iters")
+		lim := pint(c.Params, "limit")
 		lists := make([][]sitem, k)
 		for _, o := range ops {
 			if int(o.M) < k && len(o.B) > 0 {
@@ -945,8 +961,11 @@ func (eng) execute(mode string, c *hx.Case) (*hx.Result, error) {
 		for x := range iteru.MergeSorted(its, func(a, b sitem) int { return cmp.Compare(a.K, b.K) }) {
 			out = append(out, hx.CoqPair(hx.CoqN(x.K), hx.CoqN(x.Tag)))
 			ob = append(ob, x)
+			if lim > 0 && len(out) >= lim {
+				break
+			}
 		}
-		return &hx.Result{Term: "CMergeSorted " + hx.CoqList(inTerms, "list (N * N)") + " " + hx.CoqList(out, "N * N"), Nontrivial: len(ops) >= 4 && k >= 2, Tags: append(tags, lenTag()), Observed: ob}, nil
+		return &hx.Result{Term: fmt.Sprintf("CMergeSorted %d ", lim) + hx.CoqList(inTerms, "list (N * N)") + " " + hx.CoqList(out, "N * N"), Nontrivial: len(ops) >= 4 && k >= 2, Tags: append(tags, lenTag()), Observed: ob}, nil
 	}
 	return nil, fmt.Errorf("unknown struct %q", st)
 }
